@@ -1,2 +1,77 @@
-// placeholder
-pub fn run(_n:u64,_m:&str){}
+// "game" stream (C10, C11): action sequences on Game with every query after every step.
+use crate::common::*;
+use chess::*;
+use std::io::Write;
+use std::str::FromStr;
+
+fn res_code(r: Option<GameResult>) -> &'static str {
+    match r { None => "N", Some(GameResult::WhiteCheckmates) => "WC", Some(GameResult::WhiteResigns) => "WR", Some(GameResult::BlackCheckmates) => "BC",
+        Some(GameResult::BlackResigns) => "BR", Some(GameResult::Stalemate) => "ST", Some(GameResult::DrawAccepted) => "DA", Some(GameResult::DrawDeclared) => "DD" }
+}
+fn state(g: &Game) -> String {
+    format!("{},{},{},{}", res_code(g.result()), if g.side_to_move() == Color::White { 'w' } else { 'b' }, g.can_declare_draw() as u8, g.actions().len())
+}
+const NEAR_TERMINAL: &[&str] = &[
+    "6k1/5ppp/8/8/8/8/5PPP/3R2K1 w - - 0 1", "7k/5Q2/6K1/8/8/8/8/8 b - - 0 1", "7k/8/5KQ1/8/8/8/8/8 w - - 0 1",
+    "rnb1kbnr/pppp1ppp/8/4p3/6Pq/5P2/PPPPP2P/RNBQKBNR w KQkq - 1 3", "rnbqkbnr/pppp1ppp/8/4p3/6P1/5P2/PPPPP2P/RNBQKBNR b KQkq - 0 2",
+    "k7/8/1K6/8/8/8/8/7R w - - 0 1", "k7/2Q5/1K6/8/8/8/8/8 b - - 0 1", "8/8/8/8/8/5k2/5p2/5K2 w - - 0 1",
+    "4k3/8/8/8/8/8/8/R3K1N1 w Q - 0 1", "r3k2r/8/8/8/8/8/8/R3K2R w KQkq - 0 1", "4k3/8/8/8/8/8/8/4K2R w K - 0 1",
+    "8/P7/8/8/8/8/8/1K5k w - - 0 1", "1k5K/8/8/8/8/8/p7/8 b - - 0 1", "8/1P6/8/8/8/8/8/K1k3N1 w - - 0 1", "8/8/8/8/8/8/6p1/k1K3n1 b - - 0 1",
+    "8/8/8/3k4/8/3K4/8/4R2r w - - 0 1", "8/8/4k3/8/8/2N1K3/8/6n1 w - - 0 1", "1n2k3/8/8/8/8/8/8/1N2K3 w - - 0 1",
+];
+
+pub fn run(n: u64, mode: &str) {
+    let mut rng = Rng::new(seed_from_env());
+    let out = std::io::stdout(); let mut out = std::io::BufWriter::new(out.lock());
+    let mut starts: Vec<Board> = NEAR_TERMINAL.iter().filter_map(|f| Board::from_str(f).ok()).collect();
+    if mode != "draw" { starts.extend(roots()); }
+    for gi in 0..n {
+        let gidx = (gi as usize) * nshards() + shard();
+        let start = if gidx < starts.len() { starts[gidx] } else { *rng.pick(&starts) };
+        let mut g = Game::new_with_board(start);
+        let mut line = format!("G {} | s={}", enc(&start), state(&g));
+        let steps = if mode == "draw" { 120 + rng.below(140) } else { 10 + rng.below(70) };
+        let mut seen: Vec<Board> = vec![start];
+        let mut post = 0;
+        let force_pawn_at: Option<u64> = if mode == "draw" && rng.chance(1, 2) { Some(40 + rng.below(80)) } else { None };
+        for ply in 0..steps {
+            if g.result().is_some() { post += 1; if post > 6 { break; } }
+            let pos = g.current_position();
+            let legal: Vec<ChessMove> = MoveGen::new_legal(&pos).collect();
+            let roll = rng.below(100);
+            let op: String;
+            let ret: bool;
+            let protocol_pct = if mode == "draw" { 3 } else { 30 };
+            if roll >= protocol_pct || g.result().is_some() && roll >= 60 {
+                // a move attempt: mostly legal, sometimes illegal / random
+                let m = if legal.is_empty() || rng.chance(1, 8) {
+                    ChessMove::new(sq(rng.below(64) as usize), sq(rng.below(64) as usize), if rng.chance(1, 6) { code_promo(1 + rng.below(4) as u8) } else { None })
+                } else if mode == "draw" && Some(ply) == force_pawn_at && legal.iter().any(|m| pos.piece_on(m.get_source()) == Some(Piece::Pawn) && pos.piece_on(m.get_dest()).is_none()) {
+                    // one quiet pawn move / promotion somewhere in the middle of a long quiet stretch
+                    let pm: Vec<ChessMove> = legal.iter().cloned().filter(|m| pos.piece_on(m.get_source()) == Some(Piece::Pawn) && pos.piece_on(m.get_dest()).is_none()).collect();
+                    *rng.pick(&pm)
+                } else if mode == "draw" {
+                    // quiet reversible moves, with a taste for returning to earlier positions
+                    let quiet: Vec<ChessMove> = legal.iter().cloned().filter(|m| pos.piece_on(m.get_dest()).is_none() && pos.piece_on(m.get_source()) != Some(Piece::Pawn)).collect();
+                    let pool = if quiet.is_empty() || (force_pawn_at.is_none() && rng.chance(1, 40)) { legal.clone() } else { quiet };
+                    let back: Vec<ChessMove> = pool.iter().cloned().filter(|m| { let nb = pos.make_move_new(*m); seen.iter().any(|s| *s == nb) }).collect();
+                    if !back.is_empty() && rng.chance(3, 5) { *rng.pick(&back) } else { *rng.pick(&pool) }
+                } else { biased_move(&pos, &mut rng).unwrap_or(legal[0]) };
+                ret = g.make_move(m);
+                if ret { seen.push(g.current_position()); }
+                op = format!("m{}", mv_str(&m).replace(',', "/"));
+            } else {
+                let c = if rng.chance(1, 2) { Color::White } else { Color::Black };
+                match rng.below(if mode == "draw" { 3 } else { 6 }) {
+                    0 => { ret = g.declare_draw(); op = "d".to_string(); }
+                    1 | 2 => { ret = g.offer_draw(c); op = format!("o{}", if c == Color::White { 'w' } else { 'b' }); }
+                    3 | 4 => { ret = g.accept_draw(); op = "a".to_string(); }
+                    _ => { ret = g.resign(c); op = format!("r{}", if c == Color::White { 'w' } else { 'b' }); }
+                }
+            }
+            line.push_str(&format!(" {}={},{}", op, ret as u8, state(&g)));
+        }
+        line.push_str(&format!(" | {}", enc(&g.current_position())));
+        writeln!(out, "{}", line).unwrap();
+    }
+}
